@@ -155,6 +155,50 @@ theorem s2_loop_has_latch (H : Hier) (h : s2 H = true) :
   · next e he => exact ⟨e, he, by simpa using this⟩
   · simp at this
 
+/-- A non-empty walk by name between leaf blocks that never takes a declared back edge: each step
+    goes from a leaf to the leaf one of its non-back-edge targets leads to (through region headers). -/
+inductive LeafWalk (H : Hier) : Name → Name → Prop
+  | single {a : Blk} {t : Name} : a ∈ leaves H → t ∈ leafArcs H a → LeafWalk H a.name t
+  | cons {a : Blk} {t c : Name} : a ∈ leaves H → t ∈ leafArcs H a → LeafWalk H t c → LeafWalk H a.name c
+
+theorem leafWalk_rank_lt (H : Hier) (rk : Ranks) (h : leafRanksOK H rk = true)
+    {a c : Name} (p : LeafWalk H a c) :
+    ∃ ra rc, rk.get a = some ra ∧ rk.get c = some rc ∧ ra < rc := by
+  induction p with
+  | @single a t ha ht =>
+    have := List.all_eq_true.mp h a ha
+    split at this
+    · simp at this
+    · next ra hra =>
+      have := List.all_eq_true.mp this t ht
+      split at this
+      · simp at this
+      · next rt hrt => exact ⟨ra, rt, hra, hrt, by simpa using this⟩
+  | @cons a t c ha ht _ ih =>
+    obtain ⟨rt, rc, hrt, hrc, hlt⟩ := ih
+    have := List.all_eq_true.mp h a ha
+    split at this
+    · simp at this
+    · next ra hra =>
+      have := List.all_eq_true.mp this t ht
+      split at this
+      · simp at this
+      · next rt' hrt' =>
+        have heq : rt' = rt := by rw [hrt] at hrt'; exact (Option.some.inj hrt').symm
+        have hlt' : ra < rt' := by simpa using this
+        exact ⟨ra, rc, hra, hrc, by omega⟩
+
+/-- **S4.** Across the whole hierarchy no walk by name between leaf blocks returns to where it
+    started without taking a declared back edge: every cycle of the restructured graph — and with
+    C01 every cycle of the input — passes a declared back edge, which by `s2_sound` runs from the
+    single latch of a loop region to that region's header. -/
+theorem s4_every_cycle_takes_a_backedge (H : Hier) (h : s4 H = true) (n : Name) : ¬ LeafWalk H n n := by
+  intro p
+  obtain ⟨ra, rc, h1, h2, hlt⟩ := leafWalk_rank_lt H _ h p
+  rw [h1] at h2
+  have : ra = rc := Option.some.inj h2
+  omega
+
 /-! Non-vacuity: the real output for `0→1, 1→(1,2)` is structured; the un-restructured loop is not
 (`s1` fails: the level has a cycle). -/
 def okH : Hier := [
